@@ -166,6 +166,15 @@ func instrIndex(in ssa.Instruction) ipos {
 
 // instrDominates: every path from entry to b passes a.
 func instrDominates(a, b ssa.Instruction) bool {
+	if a.Parent() != b.Parent() {
+		// one of them sits in a helper the reference tree does not have: compare at the call site through
+		// which it executes (canon.go / summary.go)
+		a2, b2 := projectPair(a, b)
+		if a2 == nil || b2 == nil || a2 == b2 {
+			return false
+		}
+		a, b = a2, b2
+	}
 	pa, pb := instrIndex(a), instrIndex(b)
 	if pa.b == pb.b {
 		return pa.i < pb.i
@@ -193,6 +202,47 @@ func reach(fn *ssa.Function, start ssa.Instruction, cut func(from, to *ssa.Basic
 	}
 	reachedFrom := map[*ssa.BasicBlock]int{} // smallest index from which block scanned
 	var work []item
+	if start != nil && start.Parent() != fn {
+		// a start point inside a new helper: continue from the helper's call site in fn
+		if s2 := siteIn(fn, start); s2 != nil && s2.Parent() == fn {
+			start = s2
+		}
+	}
+	if stop != nil {
+		// a call of a new helper that performs the stopping step on every path to its (successful) return
+		// stops the walk like the step itself
+		inner := stop
+		memo := map[*ssa.Function]bool{}
+		stop = func(in ssa.Instruction) bool {
+			if inner(in) {
+				return true
+			}
+			if len(gNewFuncs) == 0 {
+				return false
+			}
+			if _, isDefer := in.(*ssa.Defer); isDefer {
+				return false
+			}
+			ci, ok := in.(ssa.CallInstruction)
+			if !ok {
+				return false
+			}
+			if _, isGo := in.(*ssa.Go); isGo {
+				return false
+			}
+			h := ci.Common().StaticCallee()
+			if h == nil || !gNewFuncs[h] {
+				return false
+			}
+			v, done := memo[h]
+			if !done {
+				memo[h] = false // recursion guard
+				v = mustDoOnSuccess(h, inner)
+				memo[h] = v
+			}
+			return v
+		}
+	}
 	if start == nil {
 		if len(fn.Blocks) == 0 {
 			return func(ssa.Instruction) bool { return false }
@@ -233,6 +283,11 @@ func reach(fn *ssa.Function, start ssa.Instruction, cut func(from, to *ssa.Basic
 		}
 	}
 	return func(in ssa.Instruction) bool {
+		if in.Parent() != fn && outermost(in.Parent()) != outermost(fn) {
+			if s2 := siteIn(fn, in); s2 != nil {
+				in = s2
+			}
+		}
 		p := instrIndex(in)
 		for _, r := range ranges[p.b] {
 			// the stopping instruction itself counts as reached (until inclusive) so that
